@@ -188,21 +188,36 @@ class Config(object):
         self.inlined = set()        # qualnames of repo functions interpreted without a contract
         self.used_contracts = set()
         self.global_overrides = {}  # (module name, global name) -> initial value factory
+        self._file_cache = {}
+        self._class_cache = {}
 
     def interpretable(self, func):
         code = getattr(func, '__code__', None)
         if code is None:
             return False
-        fn = os.path.realpath(code.co_filename)
-        return fn.startswith(self.repo_roots) or fn.startswith(self.verif_roots)
+        r = self._file_cache.get(code.co_filename)
+        if r is None:
+            fn = os.path.realpath(code.co_filename)
+            r = fn.startswith(self.repo_roots) or fn.startswith(self.verif_roots)
+            self._file_cache[code.co_filename] = r
+        return r
 
     def is_repo_class(self, cls):
+        r = self._class_cache.get(cls)
+        if r is not None:
+            return r
         mod = sys.modules.get(getattr(cls, '__module__', None))
         fn = getattr(mod, '__file__', None)
         if not fn:
-            return False
-        fn = os.path.realpath(fn)
-        return fn.startswith(self.repo_roots) or fn.startswith(self.verif_roots)
+            r = False
+        else:
+            fn = os.path.realpath(fn)
+            r = fn.startswith(self.repo_roots) or fn.startswith(self.verif_roots)
+        try:
+            self._class_cache[cls] = r
+        except TypeError:
+            pass
+        return r
 
 
 def has_sym(v, _seen=None, _depth=0):
@@ -1566,6 +1581,16 @@ class Interp(object):
         if isinstance(obj, Sym):
             raise PyRaise(TypeError("%s object is not subscriptable" % pytype_of(obj).__name__))
         if isinstance(obj, (list, tuple, str, range)):
+            if isinstance(idx, SInt) and isinstance(obj, (list, tuple)) and 1 < len(obj) <= 64:
+                # a constant table of integers read at a symbolic in-range index: one if-then-else chain instead of one path per entry
+                ints = [k for k, x in enumerate(obj) if type(x) is int]
+                t = int_term(idx)
+                if len(ints) > 1 and self.ctx.valid(z3.And(t >= 0, t < len(obj))) and \
+                        all(self.ctx.valid(t != k) for k in range(len(obj)) if type(obj[k]) is not int):
+                    e = z3.IntVal(obj[ints[-1]])
+                    for k in reversed(ints[:-1]):
+                        e = z3.If(t == k, z3.IntVal(obj[k]), e)
+                    return SInt(e)
             if isinstance(idx, (SInt, SBool)):
                 k = self.concretize_index(idx, len(obj), 'index')
                 if k is None:
